@@ -117,6 +117,7 @@ type gfTr struct {
 	locals  map[string]gfKind // Go local name -> kind
 	used    map[string]bool   // lean names in use
 	errOrigin map[string]string // local error variable -> name of the leaf it was last assigned from
+	nonNil    map[string]bool   // local error variable -> known to be non-nil on this path
 	fieldKeys []string          // written non-local locations (source text), in order of first occurrence
 	fieldTy   map[string]string // their Lean types
 	hasEff    bool              // the body has effect-only call statements
@@ -477,9 +478,9 @@ func (t *gfTr) binary(x *ast.BinaryExpr) (string, gfKind) {
 			}
 			return "(Int.tmod " + a + " " + b + ")", kInt
 		case token.SHL:
-			s = a + " * 2 ^ (" + b + ").toNat"
+			s = a + " * 2 ^ (Int.toNat (" + b + "))"
 		case token.SHR:
-			return "(" + a + " / 2 ^ (" + b + ").toNat)", kInt
+			return "(" + a + " / 2 ^ (Int.toNat (" + b + ")))", kInt
 		}
 		return gf_wrapAt(ty, "("+s+")"), kInt
 	}
@@ -636,10 +637,15 @@ func (t *gfTr) retValue(x ast.Node, r ast.Expr, kind string) string {
 		}
 		if id, ok := r.(*ast.Ident); ok {
 			if k, isLocal := t.locals[id.Name]; isLocal && k == kErr {
+				label := "err"
 				if o := t.errOrigin[id.Name]; o != "" {
-					return `"` + o + `"`
+					label = o
 				}
-				return `"err"`
+				if t.nonNil[id.Name] {
+					return `"` + label + `"`
+				}
+				// not known to be non-nil here: the label only if the variable holds an error
+				return "(if " + t.leaves["local:"+id.Name] + " = true then \"" + label + "\" else \"ok\")"
 			}
 		}
 		if gf_isErrT(t.typeOf(r)) {
@@ -766,8 +772,14 @@ func (t *gfTr) stmts(ss []ast.Stmt) string {
 		c, k := t.expr(x.Cond)
 		cond := t.toProp(c, k)
 		afterInit := t.snapshot()
+		for _, n := range t.nilFacts(x.Cond, true) {
+			t.nonNil[n] = true
+		}
 		thenS := t.stmts(append(append([]ast.Stmt{}, x.Body.List...), rest...))
 		t.restore(afterInit)
+		for _, n := range t.nilFacts(x.Cond, false) {
+			t.nonNil[n] = true
+		}
 		var elseS string
 		if x.Else != nil {
 			elseS = t.stmts(append([]ast.Stmt{x.Else}, rest...))
@@ -795,8 +807,9 @@ func (t *gfTr) stmts(ss []ast.Stmt) string {
 		var def []ast.Stmt
 		hasDef := false
 		type arm struct {
-			cond string
-			body []ast.Stmt
+			cond  string
+			body  []ast.Stmt
+			facts []string
 		}
 		var arms []arm
 		for _, cc := range x.Body.List {
@@ -819,13 +832,20 @@ func (t *gfTr) stmts(ss []ast.Stmt) string {
 					cs = append(cs, t.toProp(v, k))
 				}
 			}
-			arms = append(arms, arm{strings.Join(cs, " ∨ "), cl.Body})
+			var facts []string
+			if x.Tag == nil && len(cl.List) == 1 {
+				facts = t.nilFacts(cl.List[0], true)
+			}
+			arms = append(arms, arm{strings.Join(cs, " ∨ "), cl.Body, facts})
 		}
 		_ = hasDef
 		out := ""
 		closeN := 0
 		for _, a := range arms {
 			t.restore(afterInit)
+			for _, n := range a.facts {
+				t.nonNil[n] = true
+			}
 			body := t.stmts(append(append([]ast.Stmt{}, a.body...), rest...))
 			out += "if " + a.cond + " then\n" + gf_indent(body) + "\nelse\n"
 			closeN++
@@ -866,7 +886,7 @@ func (t *gfTr) bindTarget(at ast.Node, lhs ast.Expr, v string, k gfKind) string 
 			}
 		} else {
 			if k == kErr {
-				t.errOrigin[id.Name] = v
+				t.setErrOrigin(id.Name, v)
 			}
 			n := t.bindLocal(id.Name, k)
 			return "let " + n + " := " + v + "\n"
@@ -882,6 +902,48 @@ func (t *gfTr) bindTarget(at ast.Node, lhs ast.Expr, v string, k gfKind) string 
 	n := t.fresh(t.text(lhs))
 	t.leaves["local:"+key] = n
 	return "let " + n + " := " + v + "\n"
+}
+
+// setErrOrigin records where a local error variable got its value from, and whether that value is known to be
+// an error (a constructed error) rather than "an error or nil" (a call result).
+func (t *gfTr) setErrOrigin(name, v string) {
+	delete(t.nonNil, name)
+	switch v {
+	case "true":
+		t.errOrigin[name] = "err"
+		t.nonNil[name] = true
+	case "false":
+		delete(t.errOrigin, name)
+	default:
+		t.errOrigin[name] = v
+	}
+}
+
+// nilFacts lists the local error variables known to be non-nil when cond evaluates to val: `x != nil` (and
+// conjunctions of it) for true, `x == nil` (and disjunctions of it) for false.
+func (t *gfTr) nilFacts(cond ast.Expr, val bool) []string {
+	switch c := cond.(type) {
+	case *ast.ParenExpr:
+		return t.nilFacts(c.X, val)
+	case *ast.BinaryExpr:
+		switch {
+		case c.Op == token.LAND && val, c.Op == token.LOR && !val:
+			return append(t.nilFacts(c.X, val), t.nilFacts(c.Y, val)...)
+		case c.Op == token.NEQ && val, c.Op == token.EQL && !val:
+			id, ok := c.X.(*ast.Ident)
+			other := c.Y
+			if !ok {
+				id, ok = c.Y.(*ast.Ident)
+				other = c.X
+			}
+			if ok && gf_isNil(other) {
+				if k, isLocal := t.locals[id.Name]; isLocal && k == kErr {
+					return []string{id.Name}
+				}
+			}
+		}
+	}
+	return nil
 }
 
 func (t *gfTr) assign(x *ast.AssignStmt, rest []ast.Stmt) string {
@@ -957,7 +1019,18 @@ func (t *gfTr) assignLets(x *ast.AssignStmt) string {
 	var k gfKind
 	switch x.Tok {
 	case token.DEFINE, token.ASSIGN:
-		v, k = t.valueFor(x.Rhs[0])
+		v, k = "", kInt
+		if id, ok := lhs.(*ast.Ident); ok && gf_isErrT(t.typeOf(x.Rhs[0])) {
+			// a constructed error assigned to a local variable is an error for sure
+			if c, isCall := x.Rhs[0].(*ast.CallExpr); isCall && (t.text(c.Fun) == "errors.New" || t.text(c.Fun) == "fmt.Errorf") {
+				if _, isField := t.locals["field:"+id.Name]; !isField {
+					v, k = "true", kErr
+				}
+			}
+		}
+		if v == "" {
+			v, k = t.valueFor(x.Rhs[0])
+		}
 	default:
 		op := map[token.Token]token.Token{token.ADD_ASSIGN: token.ADD, token.SUB_ASSIGN: token.SUB, token.MUL_ASSIGN: token.MUL, token.QUO_ASSIGN: token.QUO, token.REM_ASSIGN: token.REM, token.SHL_ASSIGN: token.SHL, token.SHR_ASSIGN: token.SHR, token.AND_ASSIGN: token.AND, token.OR_ASSIGN: token.OR, token.XOR_ASSIGN: token.XOR, token.AND_NOT_ASSIGN: token.AND_NOT}[x.Tok]
 		if op == 0 {
@@ -1008,7 +1081,7 @@ func (t *gfTr) stmtsInit(s ast.Stmt) string {
 	v, k := t.valueFor(as.Rhs[0])
 	delete(t.locals, id.Name) // an init variable may shadow: it is only visible inside the statement
 	if k == kErr {
-		t.errOrigin[id.Name] = v
+		t.setErrOrigin(id.Name, v)
 	}
 	n := t.bindLocal(id.Name, k)
 	return "let " + n + " := " + v + "\n"
@@ -1019,10 +1092,18 @@ type gfSnap struct {
 	names  map[string]string
 	epoch  map[string]int
 	eff    string
+	origin map[string]string
+	nonNil map[string]bool
 }
 
 func (t *gfTr) snapshot() gfSnap {
-	s := gfSnap{map[string]gfKind{}, map[string]string{}, map[string]int{}, t.leaves["local:effects:"]}
+	s := gfSnap{map[string]gfKind{}, map[string]string{}, map[string]int{}, t.leaves["local:effects:"], map[string]string{}, map[string]bool{}}
+	for k, v := range t.errOrigin {
+		s.origin[k] = v
+	}
+	for k, v := range t.nonNil {
+		s.nonNil[k] = v
+	}
 	for k, v := range t.locals {
 		s.locals[k] = v
 		s.names[k] = t.leaves["local:"+k]
@@ -1042,6 +1123,14 @@ func (t *gfTr) restore(s gfSnap) {
 	t.epoch = map[string]int{}
 	for k, v := range s.epoch {
 		t.epoch[k] = v
+	}
+	t.errOrigin = map[string]string{}
+	for k, v := range s.origin {
+		t.errOrigin[k] = v
+	}
+	t.nonNil = map[string]bool{}
+	for k, v := range s.nonNil {
+		t.nonNil[k] = v
 	}
 	if s.eff != "" {
 		t.leaves["local:effects:"] = s.eff
@@ -1093,7 +1182,7 @@ func gf_containsPanic(n ast.Node) bool {
 }
 
 func gfTranslate(p *packages.Package, fd *ast.FuncDecl, spec gfSpec) (def string, err error) {
-	t := &gfTr{p: p, spec: spec, leaves: map[string]string{}, locals: map[string]gfKind{}, used: map[string]bool{"wrapS": true, "band": true, "bor": true, "bxor": true, "bandnot": true}, fieldTy: map[string]string{}, errOrigin: map[string]string{}, epoch: map[string]int{}}
+	t := &gfTr{p: p, spec: spec, leaves: map[string]string{}, locals: map[string]gfKind{}, used: map[string]bool{"wrapS": true, "band": true, "bor": true, "bxor": true, "bandnot": true}, fieldTy: map[string]string{}, errOrigin: map[string]string{}, nonNil: map[string]bool{}, epoch: map[string]int{}}
 	defer func() {
 		if r := recover(); r != nil {
 			if ge, ok := r.(gfErr); ok {
